@@ -48,11 +48,15 @@ pub fn all_ops() -> Vec<Op> {
 const NAMES: [&str; 2] = ["a", "b"];
 
 /// data map number d, tagged so that the answering layer is recognisable
-fn data_map(d: u8, tag: &str) -> Vec<(String, RV)> {
+fn data_map(d: u8, tag: &str, shared: bool) -> Vec<(String, RV)> {
     let mut m = Vec::new();
     for (i, n) in NAMES.iter().enumerate() {
         match d / 3u8.pow(i as u32) % 3 {
             0 => {}
+            // shared mode: every layer, global assignment and counter draws from the same two
+            // values, so that a binding can be equal to the one it shadows
+            1 if shared => m.push((n.to_string(), RV::Int(0))),
+            _ if shared => m.push((n.to_string(), obj(vec![("m", RV::Int(0))]))),
             1 => m.push((n.to_string(), st(&format!("{tag}.{n}")))),
             _ => m.push((n.to_string(), obj(vec![("m", st(&format!("{tag}.{n}.m")))]))),
         }
@@ -60,8 +64,10 @@ fn data_map(d: u8, tag: &str) -> Vec<(String, RV)> {
     m
 }
 
-fn global_value(k: u8, x: u8, step: usize) -> RV {
-    if x == 0 { st(&format!("g{step}.{}", NAMES[k as usize])) } else { obj(vec![("m", st(&format!("g{step}.{}.m", NAMES[k as usize])))]) }
+fn global_value(k: u8, x: u8, step: usize, shared: bool) -> RV {
+    if shared {
+        if x == 0 { RV::Int(0) } else { obj(vec![("m", RV::Int(0))]) }
+    } else if x == 0 { st(&format!("g{step}.{}", NAMES[k as usize])) } else { obj(vec![("m", st(&format!("g{step}.{}.m", NAMES[k as usize])))]) }
 }
 
 #[derive(Clone, Copy, Debug, PartialEq)]
@@ -170,6 +176,7 @@ struct Run<'a> {
     ops: &'a [Op],
     result: Result<(), Failure>,
     observe_every_step: bool,
+    shared: bool,
 }
 
 fn exec(rt: &dyn Runtime, i: usize, model: &mut Model, depth: usize, run: &mut Run<'_>) -> usize {
@@ -190,7 +197,7 @@ fn exec(rt: &dyn Runtime, i: usize, model: &mut Model, depth: usize, run: &mut R
         let op = run.ops[i];
         match op {
             Op::Plain(d) | Op::Sandbox(d) => {
-                let data = data_map(d, &format!("L{i}"));
+                let data = data_map(d, &format!("L{i}"), run.shared);
                 let o = RV::Obj(data.clone()).to_object();
                 let sandbox = matches!(op, Op::Sandbox(_));
                 model.layers.push(Layer { kind: if sandbox { Kind::Sandbox } else { Kind::Plain }, data });
@@ -217,13 +224,13 @@ fn exec(rt: &dyn Runtime, i: usize, model: &mut Model, depth: usize, run: &mut R
                 i += 1; // nothing to pop at the base
             }
             Op::SetGlobal(k, x) => {
-                let v = global_value(k, x, i);
+                let v = global_value(k, x, i, run.shared);
                 rt.set_global(KString::from_ref(NAMES[k as usize]), v.to_value());
                 model.set_global(NAMES[k as usize], v);
                 i += 1;
             }
             Op::SetIndex(k, x) => {
-                let v = RV::Int(i as i64 * 10 + x as i64);
+                let v = if run.shared { RV::Int(x as i64) } else { RV::Int(i as i64 * 10 + x as i64) };
                 rt.set_index(KString::from_ref(NAMES[k as usize]), v.to_value());
                 model.set_index(NAMES[k as usize], v);
                 i += 1;
@@ -237,13 +244,17 @@ pub struct Seq {
     /// caller data map (0..3)
     pub base: u8,
     pub ops: Vec<Op>,
+    /// false: every value is tagged with the layer / step that bound it; true: all values come from
+    /// one two-value domain (bindings equal to the ones they shadow)
+    #[serde(default)]
+    pub shared: bool,
 }
 
-fn base_map(b: u8) -> Vec<(String, RV)> {
+fn base_map(b: u8, shared: bool) -> Vec<(String, RV)> {
     match b {
         0 => vec![],
-        1 => data_map(1 + 3 * 2, "base"),
-        _ => data_map(2 + 3, "base"),
+        1 => data_map(1 + 3 * 2, "base", shared),
+        _ => data_map(2 + 3, "base", shared),
     }
 }
 
@@ -260,12 +271,15 @@ pub fn oracle(c: &Seq, obs: &mut Obs) -> Check {
     if c.ops.iter().any(|o| matches!(o, Op::Global)) {
         obs.class("with_nested_global");
     }
-    let base = base_map(c.base);
+    if c.shared {
+        obs.class("shared_value_domain");
+    }
+    let base = base_map(c.base, c.shared);
     let g = RV::Obj(base.clone()).to_object();
     let mut model = Model::new(&base);
     let r = guard(|| {
         let rt = RuntimeBuilder::new().set_globals(&g).build();
-        let mut run = Run { ops: &c.ops, result: Ok(()), observe_every_step: c.ops.len() > 6 };
+        let mut run = Run { ops: &c.ops, result: Ok(()), observe_every_step: c.ops.len() > 6, shared: c.shared };
         exec(&rt, 0, &mut model, 0, &mut run);
         run.result
     });
@@ -277,30 +291,30 @@ pub fn oracle(c: &Seq, obs: &mut Obs) -> Check {
 
 fn seq_nth(i: u64, len: usize, ops: &[Op]) -> Option<Seq> {
     let n = ops.len() as u64;
-    let mut radices = vec![3u64];
+    let mut radices = vec![2u64, 3u64];
     radices.extend(std::iter::repeat(n).take(len));
     let d = decode(i, &radices)?;
-    Some(Seq { base: d[0] as u8, ops: d[1..].iter().map(|x| ops[*x as usize]).collect() })
+    Some(Seq { shared: d[0] == 1, base: d[1] as u8, ops: d[2..].iter().map(|x| ops[*x as usize]).collect() })
 }
 
 pub fn run(ctx: &Ctx) {
-    ctx.set_rule("E2: every operation sequence of length <= 4, a strided slice of length 5 (thorough: denser, and length 6), over the 28 operations {push plain scope d, push sandboxed scope d (d = the 9 maps binding a / b to nothing, a scalar or a one-key object), push global layer, pop, set_global k v, set_index k v} from each of 3 caller data maps, executed on the real StackFrame / SandboxedStackFrame / GlobalFrame types over `&dyn Runtime` (pop = the frame is really dropped) and on the abstract model (stack of maps + one counter map); after the last operation of every sequence (every prefix is itself an enumerated sequence): try_get(p) == model for 8 paths of length 1..2, get(p) agrees with try_get(p), roots() == the set of top-level names that resolve, get_index == model counters. E1: random sequences of length <= 12 observed after every step. Non-trivial = a push followed later by a pop or a global assignment; distinct by sequence.");
+    ctx.set_rule("E2: every operation sequence of length <= 4, a strided slice of length 5 (thorough: denser, and length 6), over the 28 operations {push plain scope d, push sandboxed scope d (d = the 9 maps binding a / b to nothing, a scalar or a one-key object), push global layer, pop, set_global k v, set_index k v} from each of 3 caller data maps and in two value domains (tagged: every bound value names the layer / step that bound it; shared: all layers, global assignments and counters draw from the same two values, so a binding can equal the one it shadows), executed on the real StackFrame / SandboxedStackFrame / GlobalFrame types over `&dyn Runtime` (pop = the frame is really dropped) and on the abstract model (stack of maps + one counter map); after the last operation of every sequence (every prefix is itself an enumerated sequence): try_get(p) == model for 8 paths of length 1..2, get(p) agrees with try_get(p), roots() == the set of top-level names that resolve, get_index == model counters. E1: random sequences of length <= 12 observed after every step. Non-trivial = a push followed later by a pop or a global assignment; distinct by sequence.");
     let ops = all_ops();
     let n = ops.len() as u64;
     let full = ctx.pick(4, 4);
     for len in 0..=full {
         let ops = &ops;
-        ctx.exhaustive(&format!("sequences_len{len}"), 3 * n.pow(len as u32), move |i| seq_nth(i, len, ops), oracle);
+        ctx.exhaustive(&format!("sequences_len{len}"), 6 * n.pow(len as u32), move |i| seq_nth(i, len, ops), oracle);
     }
     {
         let ops = &ops;
         let len = full + 1;
-        ctx.strided(&format!("sequences_len{len}_slice"), 3 * n.pow(len as u32), ctx.pick(37, 5), move |i| seq_nth(i, len, ops), oracle);
+        ctx.strided(&format!("sequences_len{len}_slice"), 6 * n.pow(len as u32), ctx.pick(37, 5), move |i| seq_nth(i, len, ops), oracle);
     }
     if !ctx.quick() {
         let ops = &ops;
-        ctx.strided("sequences_len6_slice", 3 * n.pow(6), 293, move |i| seq_nth(i, 6, ops), oracle);
+        ctx.strided("sequences_len6_slice", 6 * n.pow(6), 293, move |i| seq_nth(i, 6, ops), oracle);
     }
     let ops2 = ops.clone();
-    ctx.random("random_sequences", ctx.pick(400_000, 3_000_000), move || (0u8..3, proptest::collection::vec(proptest::sample::select(ops2.clone()), 5..=12)).prop_map(|(base, ops)| Seq { base, ops }), oracle);
+    ctx.random("random_sequences", ctx.pick(400_000, 3_000_000), move || (0u8..3, proptest::collection::vec(proptest::sample::select(ops2.clone()), 5..=12), any::<bool>()).prop_map(|(base, ops, shared)| Seq { base, ops, shared }), oracle);
 }
